@@ -39,8 +39,9 @@ if nv:
     ts.append("")
     ts.append("Changes on which some check gives no verdict (exit 2): " + "; ".join("%s (%s)" % (k, ", ".join(v["no_verdict"])) for k, v in sorted(nv.items())))
 nfire = sum(1 for v in idx.values() if v["fires"])
-counts = "%d of %d seeds reported with exit 1 by at least one check; %d twins / evolutions, %d with a false alarm, %d only without verdict" % (
-    nfire, len(idx), len(tidx), len(fa), len(nv))
+nown = sum(1 for k, v in idx.items() if (v.get("property") or k[:3].upper()) in v["fires"])
+counts = "%d of %d seeds reported with exit 1 by at least one check, %d of them by the check of the property the seed was written against; %d twins / evolutions, %d with a false alarm, %d only without verdict" % (
+    nfire, len(idx), nown, len(tidx), len(fa), len(nv))
 txt = txt.replace("SEED_TABLE", "\n".join(rows)).replace("TWIN_SUMMARY", "\n".join(ts)).replace("COUNTS", counts)
 d = open(os.path.join(V, "DESIGN.md")).read()
 i = d.index("\n## 12. Build report")
